@@ -175,7 +175,9 @@ EqObservedIoU(v, x, y) ==
 \* huge origin (2^E s, in.bases[k]; 0 = no origin): short events far along the time axis.  The closed forms are ratios
 \* of tick differences, hence free of scale and -- away from 0, MC_Affinity!LawShift -- of origin: the same clauses
 \* apply; sh[k] is the pair at origin bases[k] (ds[k] = 0), so Shift compares origins 2^27 s apart.
-IsLat(o) == o.in.kind \in {"lat", "far"}
+\* "iso": ticks of ONE numeric unit on both axes (1 tick = u seconds = u hertz, u = 0.5, 2, 0.125) so that coordinate lists
+\* of different kinds can coincide literally (TimeInterval [1, 2] / Point [1, 2]) and time_buffer = freq_buffer as numbers.
+IsLat(o) == o.in.kind \in {"lat", "far", "iso"}
 K1(o) == IF IsLat(o) THEN o.in.g1.type ELSE o.in.k1
 K2(o) == IF IsLat(o) THEN o.in.g2.type ELSE o.in.k2
 Vals(run) == {run.v12, run.v21, run.v11, run.v22} \cup {run.sh[k].v : k \in DOMAIN run.sh}
